@@ -233,6 +233,7 @@ func runC06(c *Ctx) {
 	runC06Deadlines(c, pki)
 	runC06RefPeer(c, pki)
 	runC06Defaults(c, pki)
+	runC06LongStd(c, pki)
 	defer rep.Require("sessions_with_a_negotiated_application_protocol", 10)
 	rep.Count("cases", int64(len(cases)))
 	var smu sync.Mutex
